@@ -24,6 +24,11 @@ CFG = {
             'literal-key stream: insert and update points for each dotted index property carrying a root key literally named like the property '
             'next to the nested map, each of them well formed / wrong-sized / ill-typed / missing / blocked by a scalar, in all combinations, JSON '
             'and MessagePack (the nested walk, which the dispatcher follows, decides; 4xx without effect when it is invalid); '
+            'mixed-integer stream: MessagePack inserts / updates whose unindexed (also nested) properties hold what a standard encoder writes -- '
+            'fixint, int8..int64, uint8..uint64 around 127/128, 255/256, 32767/32768, 65535/65536, 2^31, 2^32, 2^63, negatives -- next to floats, '
+            'strings, nil, bool and missing values, then valid searches sorted by these properties (ascending / descending, one and two keys, nested '
+            'keys, selected or not, filter and ranking queries, JSON and MessagePack, before and after an update that changes every kind): all '
+            'must be 2xx with the process alive; after 12 process deaths in one batch the rest of that batch is dropped (counted); '
             '(c) random bytes and byte-mutated valid bodies under both content types per endpoint. For each exchange: how each layer sees '
             'the request, the body as decoded by the decoders DecodeValid uses (abstracted for the model), status, recovered panics, '
             'digest of all collections of all users (schemas, point counts, content of all known points) before/after, process death. '
